@@ -17,4 +17,12 @@ META = {
         'note': PROOF_NOTE + 'float64 arithmetic is a parameter (true division is only compared bit-for-bit in the correspondence); math/big is trusted.',
         'technique': 'Lean 4 proof (omega, Int.tdiv/fdiv lemmas) over a transcription of int_props.go + exhaustive/boundary correspondence against exact Int',
     },
+    'C15': {
+        'text': 'Theorems for every state type, statement semantics, deferred-expression semantics and body: the Go statement loop equals a declarative reference (exit at the first '
+                'return/raise/error; defers handed over = those of the statements completed before the exit, in reach order; fall-through value = first yield else last value); evalDefer runs '
+                'them front to back once each and stops after the first that raises; the outcome is the body\'s unless a deferred expression raises. Tied to eval_program.go by an exhaustive '
+                'exit-point x defer-layout sweep of real programs (stdout markers + result).',
+        'note': PROOF_NOTE + 'the statement evaluator is abstract (any state transformer); nesting is exercised through the concrete instance only.',
+        'technique': 'Lean 4 proof (induction over the statement list, refinement to a declarative reference) + exhaustive exit-point x defer-layout correspondence',
+    },
 }
